@@ -75,6 +75,38 @@ Inductive outcome := Ok | Raise (e : exn).
 Definition outcome_eqb (a b : outcome) : bool :=
   match a, b with Ok, Ok => true | Raise e, Raise f => exn_eqb e f | _, _ => false end.
 
+(* ---------- Range whose bounds are given BY TRAIT NAME (BaseRange._validate / _set, trait_types.py:1856-1890) ---------- *)
+(* what reading attribute n yields: the stored value, else the declared default *)
+Definition read (c : cls) (s : inst) (n : Z) : option pv :=
+  match get s n with
+  | Some w => Some w
+  | None => match trait_of c n with Some (_, dflt) => Some dflt | None => None end
+  end.
+(* not a str; new_value = type(low)(value), i.e. int(value) for int bounds; every exception is swallowed by the bare
+   except; then the two-sided test with the exclusion flags, against the bounds AS THEY ARE NOW *)
+Definition dyn_range (low high : option pv) (mask : Z) (v : pv) : vres :=
+  match v with
+  | PStr _ | PStrSub _ => Reject
+  | _ =>
+      match low, high with
+      | Some (PInt l), Some (PInt h) =>
+          match cast_int v with
+          | Returns (PInt z) => if py_int_in_range z (Some l) (Some h) mask then Accept (PInt z) else Reject
+          | _ => Reject
+          end
+      | _, _ => Reject            (* bounds of another type: outside the model (class_ok asks for Int bound traits) *)
+      end
+  end.
+(* validation with access to the instance *)
+Definition validate_s (E : env) (c : cls) (s : inst) (d : desc) (v : pv) : vres :=
+  match d with
+  | DRangeDyn lo hi mask => dyn_range (read c s lo) (read c s hi) mask v
+  | _ => validate E d v
+  end.
+(* property-like traits are always validated: no Undefined bypass *)
+Definition always_validated (d : desc) : bool :=
+  match d with DProperty _ | DRangeDyn _ _ _ => true | _ => false end.
+
 (* setattr_trait, ctraits.c:2445-2553: validate; when the trait has a post_setattr and the name is not
    in the dictionary yet, the default is materialised first (stored, post_setattr called on it);
    then the new value is stored and post_setattr runs on it unless it is the object already stored *)
@@ -83,7 +115,9 @@ Definition setattr (E : env) (c : cls) (s : inst) (n : Z) (v : pv) : inst * outc
   | None => (s, Raise EOtherError)            (* not a validated attribute: outside the model *)
   | Some (d, dflt) =>
       (* ctraits.c:2446-2455: "If the object's value is Undefined, then do not call the validate method" *)
-      match (if is_undefined v then Accept v else validate E d v) with
+      (* a validated Property goes through setattr_validate_property (ctraits.c:2767): always validated, then the setter *)
+      match (if is_undefined v then (if always_validated d then validate_s E c s d v else Accept v)
+             else validate_s E c s d v) with
       | Reject => (s, Raise ETraitError)
       | Propagate e => (s, Raise e)
       | Accept w =>
@@ -116,7 +150,9 @@ Definition setattr (E : env) (c : cls) (s : inst) (n : Z) (v : pv) : inst * outc
       end
   end.
 
-Inductive how := Attr | TraitSet | Ctor.
+(* TraitSetQ: trait_set(trait_change_notify=False, ..) / trait_setq(..): the assignments run with HASTRAITS_NO_NOTIFY set;
+   setattr_trait's validation, storing and post_setattr do not look at that flag (ctraits.c:2445-2553) *)
+Inductive how := Attr | TraitSet | Ctor | TraitSetQ.
 Definition op := (how * list (Z * pv))%type.
 
 (* keywords are assigned one after the other; the first failure stops *)
